@@ -6,6 +6,8 @@ export GOFLAGS=-mod=mod GOPROXY=off
 mkdir -p work tools/bin harness/bin evidence replays
 (cd tools/go2lean && go build -o ../bin/go2lean .)
 tools/bin/go2lean tools/go2lean/spec.json /repo lean/Sonic/Gen
+(cd tools/respaths && go build -o ../bin/respaths .)
+tools/bin/respaths tools/respaths/config.json /repo lean/Sonic/Gen
 cp /repo/go.sum harness/go.sum
 (cd harness && go build -tags verif -o bin/harness .)
 python3 gen_lean_index.py
